@@ -17,58 +17,68 @@ theorem addGridGeneratorParam_error' {this l : GridGens} {x : Nat} {c : Int}
   · cases h; assumption
   · cases h
 
+theorem addParamOrLeave_inr {fx : Repairs} {this : GridGens} {x : Nat} {c : Int} {out : Outcome}
+    (h : addParamOrLeave fx this x c = .inr out) :
+    (∃ R, out = .ok R ∧ R.isEmpty = true ∧ fx.kf13 = true) ∨ ∃ l, out = .invalidGenerator l ∧ l.isEmpty = true ∧ fx.kf13 = false := by
+  unfold addParamOrLeave at h
+  split at h
+  · cases h
+  · rename_i l hl
+    have he := addGridGeneratorParam_error' hl
+    cases hk : fx.kf13 with
+    | true => rw [hk] at h; simp only [if_true] at h; cases h; exact Or.inl ⟨l, rfl, he, rfl⟩
+    | false => rw [hk] at h; simp only [Bool.false_eq_true, if_false] at h; cases h; exact Or.inr ⟨l, rfl, he, rfl⟩
+
 /-- the outcomes with which the body of the first loop leaves the function -/
-theorem stepWI_inr {w : Nat} {o : Ovf} {minV maxV : Int} {gr : Gens} {x : Nat} {this : GridGens} {out : Outcome}
-    (h : stepWI w o minV maxV gr x this = .inr out) :
-    out = .ok .empty ∨ ∃ l, out = .invalidGenerator l ∧ l.isEmpty = true ∧ o = .wraps := by
+theorem stepWI_inr {fx : Repairs} {w : Nat} {o : Ovf} {minV maxV : Int} {gr : Gens} {x : Nat} {this : GridGens} {out : Outcome}
+    (h : stepWI fx w o minV maxV gr x this = .inr out) :
+    (∃ R, out = .ok R ∧ R.isEmpty = true) ∨ ∃ l, out = .invalidGenerator l ∧ l.isEmpty = true ∧ o = .wraps ∧ fx.kf13 = false := by
+  have key : ∀ (t : GridGens) (c : Int), o = .wraps → addParamOrLeave fx t x c = .inr out →
+      (∃ R, out = .ok R ∧ R.isEmpty = true) ∨ ∃ l, out = .invalidGenerator l ∧ l.isEmpty = true ∧ o = .wraps ∧ fx.kf13 = false := by
+    intro t c ho h
+    rcases addParamOrLeave_inr h with ⟨R, hR, he, _⟩ | ⟨l, hl, he, hk⟩
+    · exact Or.inl ⟨R, hR, he⟩
+    · exact Or.inr ⟨l, hl, he, ho, hk⟩
   unfold stepWI at h
   simp only [] at h
   split at h
   · split at h
     · rename_i ho
-      split at h
-      · cases h
-      · rename_i l hl
-        cases h
-        exact Or.inr ⟨l, rfl, addGridGeneratorParam_error' hl, ho⟩
+      exact key _ _ ho h
     · cases h
   · split at h
     · split at h
-      · cases h; exact Or.inl rfl
+      · cases h; exact Or.inl ⟨_, rfl, rfl⟩
       · split at h
         · split at h
-          · cases h; exact Or.inl rfl
+          · cases h; exact Or.inl ⟨_, rfl, rfl⟩
           · cases h
         · cases h
     · split at h
-      · cases h; exact Or.inl rfl
+      · cases h; exact Or.inl ⟨_, rfl, rfl⟩
       · split at h
         · rename_i ho
-          split at h
-          · cases h
-          · rename_i l hl
-            cases h
-            exact Or.inr ⟨l, rfl, addGridGeneratorParam_error' hl, ho.1⟩
+          exact key _ _ ho.1 h
         · split at h
           · split at h <;> cases h
           · cases h
 
-theorem loopWI_outcome (w : Nat) (o : Ovf) (minV maxV : Int) (gr : Gens) :
-    ∀ (xs : List Nat) (this : GridGens) (out : Outcome), loopWI w o minV maxV gr xs this = out →
-      (∃ R, out = .ok R) ∨ ∃ l, out = .invalidGenerator l ∧ l.isEmpty = true ∧ o = .wraps := by
+theorem loopWI_outcome (fx : Repairs) (w : Nat) (o : Ovf) (minV maxV : Int) (gr : Gens) :
+    ∀ (xs : List Nat) (this : GridGens) (out : Outcome), loopWI fx w o minV maxV gr xs this = out →
+      (∃ R, out = .ok R) ∨ ∃ l, out = .invalidGenerator l ∧ l.isEmpty = true ∧ o = .wraps ∧ fx.kf13 = false := by
   intro xs
   induction xs with
   | nil => intro this out h; exact Or.inl ⟨this, h.symm⟩
   | cons x xs ih =>
     intro this out h
     unfold loopWI at h
-    cases hs : stepWI w o minV maxV gr x this with
+    cases hs : stepWI fx w o minV maxV gr x this with
     | inl t => rw [hs] at h; exact ih t out h
     | inr o' =>
       rw [hs] at h
       simp only [] at h
       subst h
-      rcases stepWI_inr hs with h | h
+      rcases stepWI_inr hs with ⟨R, h, _⟩ | h
       · exact Or.inl ⟨_, h⟩
       · exact Or.inr h
 
@@ -76,11 +86,9 @@ theorem loopWI_outcome (w : Nat) (o : Ovf) (minV maxV : Int) (gr : Gens) :
 theorem stepU_nonempty {minV maxV : Int} {gr : Gens} {x : Nat} {this : GridGens} (hne : ∃ u, Gen.sem this u) :
     (∃ t, stepU minV maxV gr x this = .inl t ∧ ∃ u, Gen.sem t u) ∨ stepU minV maxV gr x this = .inr (.ok .empty) := by
   obtain ⟨u, hu⟩ := hne
-  have hpar : ∀ c : Int, ∃ t, (match addGridGeneratorParam this x c with
-          | .ok t => (Sum.inl t : GridGens ⊕ Outcome)
-          | .error l => .inr (.invalidGenerator l)) = .inl t ∧ ∃ u, Gen.sem t u := by
+  have hpar : ∀ c : Int, ∃ t, addParamOrLeave beforeFix this x c = .inl t ∧ ∃ u, Gen.sem t u := by
     intro c
-    obtain ⟨t, ht, hm⟩ := param_step (c := c) hu (u x + ((0 : Int) : Rat) * (c : Rat)) 0 rfl
+    obtain ⟨t, ht, hm⟩ := param_step beforeFix (c := c) hu (u x + ((0 : Int) : Rat) * (c : Rat)) 0 rfl
     exact ⟨t, ht, _, hm⟩
   unfold stepU
   simp only []
@@ -107,10 +115,10 @@ theorem loopU_outcome (minV maxV : Int) (gr : Gens) :
     · rw [h]; exact ⟨_, rfl⟩
 
 /-- a dimension exception is thrown by, and only by, the two checks at the top of the function -/
-theorem gridWrapAssign_dim (n : Nat) (cfg : WrapCfg) (G : GridGens) :
-    gridWrapAssign n cfg G = .dimensionIncompatible ↔
+theorem gridWrapAssignV_dim (fx : Repairs) (n : Nat) (cfg : WrapCfg) (G : GridGens) :
+    gridWrapAssignV fx n cfg G = .dimensionIncompatible ↔
       guardTooBig n cfg.guard = true ∨ (cfg.vars.isEmpty = false ∧ n < varsSpaceDim cfg.vars) := by
-  unfold gridWrapAssign
+  unfold gridWrapAssignV
   by_cases hg : guardTooBig n cfg.guard = true
   · simp [hg]
   · rw [if_neg hg]
@@ -129,7 +137,7 @@ theorem gridWrapAssign_dim (n : Nat) (cfg : WrapCfg) (G : GridGens) :
           | gens gr =>
             simp only [] at h
             split at h
-            · rcases loopWI_outcome _ _ _ _ _ _ _ _ h with ⟨R, hR⟩ | ⟨l, hl, _⟩
+            · rcases loopWI_outcome _ _ _ _ _ _ _ _ _ h with ⟨R, hR⟩ | ⟨l, hl, _⟩
               · cases hR
               · cases hl
             · obtain ⟨R, hR⟩ := loopU_outcome (rangeOf cfg.r cfg.w).1 (rangeOf cfg.r cfg.w).2 gr (normVars cfg.vars)
@@ -140,9 +148,9 @@ theorem gridWrapAssign_dim (n : Nat) (cfg : WrapCfg) (G : GridGens) :
           · exact absurd h hd
 
 /-- `add_grid_generator` throws only when overflow wraps, and leaves the receiver empty -/
-theorem gridWrapAssign_invalidGenerator (n : Nat) (cfg : WrapCfg) (G : GridGens) (l : GridGens)
-    (h : gridWrapAssign n cfg G = .invalidGenerator l) : l.isEmpty = true ∧ cfg.o = .wraps := by
-  unfold gridWrapAssign at h
+theorem gridWrapAssignV_invalidGenerator (fx : Repairs) (n : Nat) (cfg : WrapCfg) (G : GridGens) (l : GridGens)
+    (h : gridWrapAssignV fx n cfg G = .invalidGenerator l) : l.isEmpty = true ∧ cfg.o = .wraps ∧ fx.kf13 = false := by
+  unfold gridWrapAssignV at h
   split at h
   · cases h
   · split at h
@@ -154,11 +162,45 @@ theorem gridWrapAssign_invalidGenerator (n : Nat) (cfg : WrapCfg) (G : GridGens)
         | gens gr =>
           simp only [] at h
           split at h
-          · rcases loopWI_outcome _ _ _ _ _ _ _ _ h with ⟨R, hR⟩ | ⟨l', hl, he, ho⟩
+          · rcases loopWI_outcome _ _ _ _ _ _ _ _ _ h with ⟨R, hR⟩ | ⟨l', hl, he, ho, hk⟩
             · cases hR
-            · cases hl; exact ⟨he, ho⟩
+            · cases hl; exact ⟨he, ho, hk⟩
           · obtain ⟨R, hR⟩ := loopU_outcome (rangeOf cfg.r cfg.w).1 (rangeOf cfg.r cfg.w).2 gr (normVars cfg.vars)
               (.gens gr) ⟨_, Gens.Mem.pt⟩
             rw [hR] at h; cases h
+
+theorem gridWrapAssign_dim (n : Nat) (cfg : WrapCfg) (G : GridGens) :
+    gridWrapAssign n cfg G = .dimensionIncompatible ↔
+      guardTooBig n cfg.guard = true ∨ (cfg.vars.isEmpty = false ∧ n < varsSpaceDim cfg.vars) :=
+  gridWrapAssignV_dim repaired n cfg G
+
+/-- the function as it is now never leaves through `add_grid_generator` -/
+theorem gridWrapAssign_not_invalidGenerator (n : Nat) (cfg : WrapCfg) (G : GridGens) (l : GridGens) :
+    gridWrapAssign n cfg G ≠ .invalidGenerator l := by
+  intro h
+  have := (gridWrapAssignV_invalidGenerator repaired n cfg G l h).2.2
+  cases this
+
+theorem gridWrapAssignBeforeFix_invalidGenerator (n : Nat) (cfg : WrapCfg) (G : GridGens) (l : GridGens)
+    (h : gridWrapAssignBeforeFix n cfg G = .invalidGenerator l) : l.isEmpty = true ∧ cfg.o = .wraps :=
+  let r := gridWrapAssignV_invalidGenerator beforeFix n cfg G l h
+  ⟨r.1, r.2.1⟩
+
+/-- `*cs_p` is only dimension-checked: the guard-free configuration has the same outcome on a legal call -/
+theorem gridWrapAssignV_guard_unused (fx : Repairs) (n : Nat) (cfg : WrapCfg) (g : Option (List PPLV.Lin.Con)) (G : GridGens)
+    (h1 : guardTooBig n cfg.guard = false) (h2 : guardTooBig n g = false) :
+    gridWrapAssignV fx n { cfg with guard := g } G = gridWrapAssignV fx n cfg G := by
+  unfold gridWrapAssignV
+  simp only [h1, h2]
+
+theorem guardTooBig_of_legal {n : Nat} {cfg : WrapCfg} (hlegal : Legal n cfg) : guardTooBig n cfg.guard = false := by
+  unfold guardTooBig
+  cases hg : cfg.guard with
+  | none => rfl
+  | some cs => have := hlegal.1 cs hg; simp only [decide_eq_false_iff_not]; omega
+
+theorem gridWrapAssignV_noguard (fx : Repairs) (n : Nat) (cfg : WrapCfg) (G : GridGens) (hlegal : Legal n cfg) :
+    gridWrapAssignV fx n { cfg with guard := none } G = gridWrapAssignV fx n cfg G :=
+  gridWrapAssignV_guard_unused fx n cfg none G (guardTooBig_of_legal hlegal) rfl
 
 end PPLV.Wrap.GW
